@@ -184,9 +184,14 @@ def redrive(src):
 
 MODELS = {"quick": [("Enumerate", "Enumerate_q.cfg", "frontier enumeration of all NFA(2,{a,b}) for n <= 3, level by level", {"allow_untaken": True}),
                     ("Enumerate", "EnumerateCfg_q.cfg", "sentential-form enumeration of all CNF grammars with <= 3 rules, n <= 3", {"allow_untaken": True}),
+                    ("EnumerateP", "EnumerateP_q.cfg", "pda_words_up_to_n at heap level (the frontier map configuration -> SET OBJECT, one action "
+                     "per (configuration, letter) in any order): all PDAs with <= 3 stack-free / push / pop moves on 2 states over {a,b}/{X} "
+                     "whose closures stay below 5, n <= 1: exact language, level invariant, no two configurations share an object "
+                     "(Mode = aliased - EnumerateP_aliased.cfg - shows the leak a shared object causes)", {"allow_untaken": True}),
                     ("Simplify", "Simplify_q.cfg", "regexp budget-splitting enumeration (EnumIsDenotation), trees <= 2 operators")],
           "thorough": [("Enumerate", "Enumerate_t.cfg", "NFA(2,{a,b}), n <= 4", {"allow_untaken": True}),
                        ("Enumerate", "EnumerateCfg_t.cfg", "CNF grammars with <= 4 rules, n <= 4", {"allow_untaken": True}),
+                       ("EnumerateP", "EnumerateP_t.cfg", "pda_words_up_to_n at heap level, n <= 2 (0.9 M states)", {"allow_untaken": True}),
                        ("Simplify", "Simplify_t.cfg", "trees <= 3 operators, n <= 4")]}
 RULE = ("objects of the six kinds from the universes of C01/C05/C07/C09/C11 (exhaustive small universes strided in "
         "quick, random beyond); per object and bound n in {0,1,2,3}: the kind's enumerator, generate_language and the "
